@@ -37,7 +37,7 @@ CLAIMED = {
     "C15": dict(
         category="proof",
         text="Contracts on compute_instance_area and compute_oks: the result equals the closed form sum over gt-visible nodes of (prediction missing ? 0 : exp(-d^2/norm)) / #gt-visible (both normalisations, scalar scale or bounding-box area) for any number of gt/predicted instances, coordinates and NaN patterns; from it: OKS in [0,1], 1 for identical poses, gt-missing nodes ignored, prediction-missing nodes score 0, result entry (g,p) depends only on poses g and p (re-ordering instances permutes the matrix), and no exception escapes. BOUNDED part (shared with C16): match_instances for 1..2 ground-truth x 0..2 predicted instances: pairs / false negatives are instances of the two frames, nothing matched twice, the false negatives are exactly the unmatched ground truth, match scores in (0,1]. The IndexError for more than one prediction in the pinned tree was found by the totality obligation and repaired (fix: commit 727654a).",
-        note="node axis unrolled (1..2 nodes quick, 1..4 thorough); domain: >= 1 gt-visible node, stddev > 0, scale >= 0; numpy op models trusted and cross-checked. Monotonicity in the keypoint distance is a discharged lemma on the closed form (any node, any finite alternative position). Not decided: translation invariance as a separate obligation, greedy_matching / compute_iou / compute_cosine_sim, larger frames in match_instances.",
+        note="node axis unrolled (1..2 nodes quick, 1..4 thorough); domain: >= 1 gt-visible node, stddev > 0, scale >= 0; numpy op models trusted and cross-checked. Monotonicity in the keypoint distance is a discharged lemma on the closed form (skeletons of 1..2 nodes, any node, any finite alternative position). Not decided: translation invariance as a separate obligation, greedy_matching / compute_iou / compute_cosine_sim, larger frames in match_instances.",
         technique="contract-based deductive verification: symbolic execution of the real Python source against sidecar contracts, generic arithmetic lemmas instantiated explicitly, VCs discharged by z3 (cvc5 for unknowns)",
         design="3/C15",
     ),
